@@ -120,6 +120,7 @@ def run(ctx):
             exps = const_eval(n.generators[0].iter)
     tc = c.func("CodonTable._to_codon")
     loop = [st for st in stmts(tc) if isinstance(st, ast.For)]
+    ctx.need(bool(loop), "digit loop of CodonTable._to_codon (another way of splitting the number into digits cannot be decided here)")
     lexps = const_eval(loop[0].iter) if loop else None
     idx_expr = [ast.unparse(x.targets[0]) for st in loop for x in st.body if isinstance(x, ast.Assign)
                 and isinstance(x.targets[0], ast.Subscript) and "codons" in ast.unparse(x.targets[0])]
@@ -198,12 +199,16 @@ def run(ctx):
            "the code setter converts the caller's array to the alphabet's (narrower) dtype without a range "
            "check: seq.code = np.array([256]) silently becomes code 0", setter.lineno)
     am = a.func("AlphabetMapper.__init__")
-    zeros = [c_ for c_ in calls(am) if call_name(c_) == "np.zeros"]
+    # the table is either allocated (np.zeros(len(source), dtype=..)) and filled in a loop, or built in one expression
+    # (np.array([.. for c in range(len(source))], dtype=..)): in both forms the length comes from the source alphabet
+    zeros = [st.value for st in ast.walk(am) if isinstance(st, ast.Assign) and same_expr(st.targets[0], "self._mapper") and isinstance(st.value, ast.Call)
+             and call_name(st.value) in ("np.zeros", "np.empty", "np.array", "np.fromiter") and st.value.args]
     ctx.need(zeros, "mapper allocation")
     dt = [k.value for k in zeros[0].keywords if k.arg == "dtype"]
+    length_src = zeros[0].args[0].generators[0].iter if isinstance(zeros[0].args[0], (ast.ListComp, ast.GeneratorExp)) else zeros[0].args[0]
     ctx.ob("R3.table-dtype-from-stored-alphabet", ALPH, "AlphabetMapper.__init__", zeros[0],
            bool(dt) and "target_alphabet" in names_in(dt[0]) and "source_alphabet" not in names_in(dt[0])
-           and "source_alphabet" in names_in(zeros[0].args[0]),
+           and "source_alphabet" in names_in(length_src),
            "the mapper is indexed by source codes and stores target codes: its length comes from the source "
            "alphabet, its dtype must hold the largest *target* code", zeros[0].lineno)
     ctx.ob("R3.table-dtype-from-stored-alphabet", ALPH, "AlphabetMapper.__init__", "mapper[old] = target.encode(source.decode(old))",
@@ -415,7 +420,26 @@ def run(ctx):
                     and isinstance(b, ast.Expr)]
             if len(set(apps)) >= 2:
                 coupled |= set(apps)
-    ctx.need(len(coupled) == 2, "coupled ORF lists in translate()")
+    if len(coupled) < 2:
+        # one list of (protein, position) pairs instead of two parallel lists: the pairing holds by construction; both returned
+        # lists must then be read from it through the same permutation
+        pair_lists = {dotted(c_.func.value) for st in ast.walk(tr) if isinstance(st, ast.For) for b in st.body for c_ in ast.walk(b)
+                      if isinstance(c_, ast.Call) and isinstance(c_.func, ast.Attribute) and c_.func.attr == "append" and isinstance(b, ast.Expr)
+                      and len(c_.args) == 1 and isinstance(c_.args[0], ast.Tuple) and len(c_.args[0].elts) == 2}
+        ctx.need(len(pair_lists) == 1, "coupled ORF lists in translate() (two parallel lists or one list of pairs)")
+        pl = sorted(pair_lists)[0]
+        order_vars = [st.targets[0].id for st in stmts(tr) if isinstance(st, ast.Assign) and isinstance(st.value, ast.Call) and call_name(st.value) == "np.argsort"]
+        ctx.need(order_vars, "argsort in translate()")
+        ov = order_vars[0]
+        picks = [st for st in stmts(tr) if isinstance(st, ast.Assign) and isinstance(st.value, ast.ListComp) and len(st.value.generators) == 1
+                 and same_expr(st.value.generators[0].iter, ov) and isinstance(st.value.generators[0].target, ast.Name)]
+        comps = sorted(k for st in picks for k in (0, 1) if same_expr(st.value.elt, f"{pl}[{st.value.generators[0].target.id}][{k}]"))
+        ctx.ob("R6.coupled-permutation", TYPES, "NucleotideSequence.translate", f"both lists read from {pl} through {ov}", comps == [0, 1],
+               f"proteins and positions are stored pairwise in `{pl}`: both returned lists must be `[{pl}[i][k] for i in {ov}]`", tr.lineno)
+        osrc = [st for st in stmts(tr) if isinstance(st, ast.Assign) and isinstance(st.targets[0], ast.Name) and st.targets[0].id == ov]
+        ctx.ob("R6.coupled-permutation", TYPES, "NucleotideSequence.translate", ast.unparse(osrc[0])[:80], pl in names_in(osrc[0].value),
+               "the permutation must be computed from the list it is applied to", osrc[0].lineno)
+        return
     order_vars = [st.targets[0].id for st in stmts(tr) if isinstance(st, ast.Assign) and isinstance(st.value, ast.Call)
                   and call_name(st.value) == "np.argsort"]
     ctx.need(order_vars, "argsort in translate()")
@@ -454,6 +478,13 @@ def mapper_through_symbol(am):
                         and same_expr(st.targets[0].slice, v):
                     pre = summarize_block(lp.body[:lp.body.index(st)]).env
                     return same_expr(subst(st.value, pre), f"target_alphabet.encode(source_alphabet.decode({v}))")
+    # built in one expression: self._mapper = np.array([target.encode(source.decode(V)) for V in range(len(source))], ..)
+    for st in ast.walk(am):
+        if isinstance(st, ast.Assign) and same_expr(st.targets[0], "self._mapper") and isinstance(st.value, ast.Call) and st.value.args \
+                and isinstance(st.value.args[0], (ast.ListComp, ast.GeneratorExp)) and len(st.value.args[0].generators) == 1:
+            g_ = st.value.args[0].generators[0]
+            if isinstance(g_.target, ast.Name) and not g_.ifs and same_expr(g_.iter, "range(len(source_alphabet))"):
+                return same_expr(st.value.args[0].elt, f"target_alphabet.encode(source_alphabet.decode({g_.target.id}))")
     return False
 
 
